@@ -208,7 +208,7 @@ func (w *ChunkWriter) WriteChunk(kv *KV) error {
 		return errors.New("service info cannot be null")
 	}
 	// If the key hasn't changed, keep streaming data
-	if kv.Key == w.prevKey {
+	if kv.Key == w.prevKey && w.w != nil {
 		_, err := w.w.Write(kv.Val)
 		return err
 	}
